@@ -23,7 +23,9 @@ from . import vloop
 from .c02pipe import make_connector
 
 
-KINDS = ("flow", "timer", "upfail", "early", "crlfcut")
+from . import c02conv
+
+KINDS = ("flow", "timer", "upfail", "early", "crlfcut") + c02conv.KINDS
 
 
 def blob(n, tag):
@@ -403,6 +405,8 @@ def oracle_crlfcut(ctx, case, obs):
 
 
 def run_case(case):
+    if case["kind"] in c02conv.KINDS:
+        return c02conv.run_case(case)
     obs = {}
 
     async def main():
@@ -455,6 +459,8 @@ def pause_position(case, obs):
 
 
 def oracle(ctx, case, obs):
+    if case["kind"] in c02conv.KINDS:
+        return c02conv.oracle(ctx, case, obs)
     if case["kind"] == "early":
         return oracle_early(ctx, case, obs)
     if case["kind"] == "crlfcut":
@@ -592,7 +598,7 @@ def gen_crlfcut(ctx):
 
 def gen_cases(ctx):
     rng = ctx.rng
-    out = gen_early(ctx) + gen_crlfcut(ctx)
+    out = c02conv.gen_cases(ctx) + gen_early(ctx) + gen_crlfcut(ctx)
     for direction in ("down", "up"):
         for buf in (BUFS if not ctx.quick else BUFS[:2]):
             for where in ("data", "crlf", "size"):
